@@ -74,6 +74,7 @@ class Spec:
         self.constructible = True
         self.note = ""
         self.alt = {}             # a second, valid, non-default parameter set (may be empty)
+        self.edges = []           # documented edge / out-of-domain points that may be requested (value 0 or NaN there)
 
     def build(self, alt=False):
         args = self.args() if callable(self.args) else self.args
@@ -111,7 +112,7 @@ def describe(name, cls):
         if "Cog7" in base or base == "Kidder76":
             s.points = lin(0.2, 1.5)
     elif pk == "blake":
-        s.points = lin(0.1, 1.0); s.t = 1.0e-4
+        s.points = lin(0.1, 1.0); s.t = 1.0e-4; s.edges = [5.0]   # ahead of the wave front
     elif name == "dsd.cylexpansion.CylindricalExpansion":
         s.shape = "N2"; s.points = pairs(lin(0.8, 2.4), lin(0.7, 1.9)); s.t = 1.0
     elif pk == "dsd":
@@ -119,6 +120,7 @@ def describe(name, cls):
         s.points = pairs(lin(0.0, 1.0), lin(0.0, 1.0))
     elif pk == "ehep":
         s.points = lin(0.2, 5.0); s.t = 2.0
+        s.edges = [0.0, 1.0, 10.0, 12.0]      # piston face, x-tilde, xmax, beyond xmax
     elif pk == "ep_piston":
         s.points = lin(0.001, 0.05); s.t = 0.05
     elif pk == "guderley":
@@ -160,7 +162,10 @@ def describe(name, cls):
         s.points = lin(0.05, 0.85); s.t = 1.0
     elif pk == "sdrz":
         s.points = lin(0.1, 2.9); s.t = 2.0; s.min_n = 2
+    elif pk == "suolson":
+        s.points = lin(0.1, 5.0); s.t = 1.0e-9; s.edges = [0.0, 40.0]
     elif pk == "sedov":
+        s.edges = [2.0]                        # ahead of the shock
         # the docstring says density / energy at small radius are interpolated and "should not be
         # trusted": requests stay outside that documented region
         s.points = lin(0.55, 1.2); s.t = 1.0; s.cost = "slow"
